@@ -25,6 +25,8 @@ theorem minItem_lawful : Lawful minItem where
   pa_op := by intro x a b; rfl
   val_merge := by intro x y; show (if x.v < y.v then x else y).v = (if x.v < y.v then x.v else y.v); split <;> rfl
   pa_merge := by intro x y a; rfl
+  val_update := by intro _ x y; show (if x.v < y.v then x else y).v = (if x.v < y.v then x.v else y.v); split <;> rfl
+  pa_update := by intro _ x y a; rfl
   val_modify := by intro x m; rfl
   pa_modify := by intro x m a; rfl
   push_val0 := by intro p l r; rfl
@@ -40,6 +42,8 @@ theorem maxItem_lawful : Lawful maxItem where
   pa_op := by intro x a b; rfl
   val_merge := by intro x y; show (if x.v > y.v then x else y).v = (if x.v > y.v then x.v else y.v); split <;> rfl
   pa_merge := by intro x y a; rfl
+  val_update := by intro _ x y; show (if x.v > y.v then x else y).v = (if x.v > y.v then x.v else y.v); split <;> rfl
+  pa_update := by intro _ x y a; rfl
   val_modify := by intro x m; rfl
   pa_modify := by intro x m a; rfl
   push_val0 := by intro p l r; rfl
@@ -55,6 +59,8 @@ theorem sumItem_lawful : Lawful sumItem where
   pa_op := by intro x a b; rfl
   val_merge := by intro x y; rfl
   pa_merge := by intro x y a; rfl
+  val_update := by intro _ x y; rfl
+  pa_update := by intro _ x y a; rfl
   val_modify := by intro x m; rfl
   pa_modify := by intro x m a; rfl
   push_val0 := by intro p l r; rfl
@@ -76,6 +82,8 @@ theorem minAddItem_lawful : Lawful minAddItem where
     split <;> split <;> omega
   val_merge := by intro x y; rfl
   pa_merge := by intro x y a; show a + 0 = a; omega
+  val_update := by intro _ x y; rfl
+  pa_update := by intro _ x y a; show a + 0 = a; omega
   val_modify := by intro x m; rfl
   pa_modify := by intro x m a; show a + (x.md + m) = a + x.md + m; omega
   push_val0 := by intro p l r; rfl
@@ -97,6 +105,8 @@ theorem maxAddItem_lawful : Lawful maxAddItem where
     split <;> split <;> omega
   val_merge := by intro x y; rfl
   pa_merge := by intro x y a; show a + 0 = a; omega
+  val_update := by intro _ x y; rfl
+  pa_update := by intro _ x y a; show a + 0 = a; omega
   val_modify := by intro x m; rfl
   pa_modify := by intro x m a; show a + (x.md + m) = a + x.md + m; omega
   push_val0 := by intro p l r; rfl
@@ -116,6 +126,8 @@ theorem sumAddItem_lawful : Lawful sumAddItem where
     constructor <;> first | trivial | ac_rfl
   val_merge := by intro x y; rfl
   pa_merge := by intro x y a; simp [sumAddItem]
+  val_update := by intro _ x y; rfl
+  pa_update := by intro _ x y a; simp [sumAddItem]
   val_modify := by intro x m; rfl
   pa_modify := by
     intro x m a; simp only [sumAddItem, Prod.mk.injEq, Int.add_mul]
@@ -139,6 +151,8 @@ theorem prodItem_lawful {T U M A B : Type} {I : Item T M A} {J : Item U M B} (LI
   pa_op := by intro x a b; simp [prodItem, LI.pa_op, LJ.pa_op]
   val_merge := by intro x y; simp [prodItem, LI.val_merge, LJ.val_merge]
   pa_merge := by intro x y a; simp [prodItem, LI.pa_merge, LJ.pa_merge]
+  val_update := by intro _ x y; simp [prodItem, LI.val_merge, LJ.val_merge]
+  pa_update := by intro _ x y a; simp [prodItem, LI.pa_merge, LJ.pa_merge]
   val_modify := by intro x m; simp [prodItem, LI.val_modify, LJ.val_modify]
   pa_modify := by intro x m a; simp [prodItem, LI.pa_modify, LJ.pa_modify]
   push_val0 := by intro p l r; simp [prodItem, LI.push_val0, LJ.push_val0]
@@ -221,6 +235,8 @@ theorem affHashItem_lawful : Lawful affHashItem where
     | some o => exact affApply_op o a b
   val_merge := by intro x y; rfl
   pa_merge := by intro x y a; rfl
+  val_update := by intro _ x y; rfl
+  pa_update := by intro _ x y a; rfl
   val_modify := aff_val_modify
   pa_modify := aff_pa_modify
   push_val0 := by
@@ -272,6 +288,8 @@ theorem strCatItem_lawful : Lawful strCatItem where
     | some o => exact List.map_append
   val_merge := by intro x y; rfl
   pa_merge := by intro x y a; rfl
+  val_update := by intro _ x y; rfl
+  pa_update := by intro _ x y a; rfl
   val_modify := by intro x m; rfl
   pa_modify := str_pa_modify
   push_val0 := by
